@@ -416,7 +416,8 @@ class CreateStub(FnSpec):
         same_fields = z3.And(*[as_bool(cx, V_eq(cx, g(f), src.py_getattr(cx, f))) for f in ("record_uuid", "patch_uuid", "patch_index", "hdf5_hashsum")])
         return [
             ("manifest-read-from-the-given-file", z3.And(parse[1] == a.manifest_file.t, hread[1] == a.manifest_file.t), "the stub is built from the given manifest file"),
-            ("container-created-at-the-given-path", create[1] == a.record.t, "a new record is created at the given path (exclusive create)"),
+            ("container-created-at-the-given-path", create[1] == a.record.t, "a new record is created at the given path"),
+            ("existing-files-never-truncated", z3.BoolVal(create[3] is False), "the stub is created exclusively: existing containers of that name are never deleted to make room (IH5Record._create without truncate raises if the record exists)"),
             ("structure-from-the-manifest-skeleton", z3.BoolVal(init[1] is ds and init[3] is mf.fields["skeleton"]), "the stub gets the skeleton stored in the manifest"),
             ("user-block-is-a-copy-of-the-real-one", z3.And(z3.BoolVal(ub is not src), ub.t != src.t, same_fields), "the stub carries the real newest container's identity (record uuid, patch uuid, patch index, hash) on a copy of the user block"),
             ("marked-as-stub-linked-to-this-manifest", z3.And(g("ext_present").t, g("ext_stub").t, g("ext_uuid").t == mf.fields["manifest_uuid"].t, g("ext_hash").t == z3.Concat(alg, z3.StringVal(":"), hashing.HEX(alg, DISK(a.manifest_file.t)))), "the stub is marked as stub and links the manifest by uuid and by the hash of the manifest file's bytes"),
@@ -431,10 +432,12 @@ def V_eq(cx, x, y):
     return v_eq(cx, x, y)
 
 
-def stub_create(cx, clsobj, path):
+def stub_create(cx, clsobj, path, truncate=False, **kw):
+    if kw:
+        raise Unsupported(f"_create called with {sorted(kw)}")
     ds = record.rec_obj(cx, "stub", "IH5MFRecord")
     ds.committed = False
-    cx.effect("stub-create", path_term(path), ds)
+    cx.effect("stub-create", path_term(path), ds, truncate)
     return ds
 
 
